@@ -3,7 +3,7 @@ import copy
 import itertools
 import numpy as np
 
-from .. import repo, core, gen, wire, astx
+from .. import repo, core, gen, wire, astx, extract
 from ..base import BaseCheck
 from lapy import TriaMesh, TetMesh, Solver, shapedna, diffgeo, heat
 
@@ -106,6 +106,7 @@ class Check(BaseCheck):
 
     def translate(self):
         self.effects = astx.gen_effects()
+        extract.gen_shapedna()          # normalize_ev orients a COPY of a triangle mesh (recorded protocol, Bridge/ShapeDNA.lean)
 
     def seeds(self):
         rng = gen.rng_for(self.seed, "c20")
